@@ -13,7 +13,7 @@ import Polar.Stats
   Spec   (`Polar/Stats.lean`): `centralSpec`, `cumulantSpec`, `probGe`, `probGt` of a `Law`
                               (list of (probability, value) over ℚ).
 
-  Property theorems: `central_correct`, `central_order_one`, `central_counterexample`,
+  Property theorems: `central_correct` (all orders ≥ 1), `centralSpec_one`,
   `cumulant_correct`, `cumulant_recursion_correct`, `cumulant_is_log_mgf`, `cumulant_one/two/three/four`,
   `markov`, `markov_min`, `second_moment_lower`, `probHermite_eq_heSpec`, `gaussInt_heSpec_succ`,
   `gc_integrates_to_one`; finite tables: `hermite_table`,
@@ -109,65 +109,47 @@ lemma rawToCentral_getD (ms : List ℚ) (k : ℕ) (h1 : 1 ≤ k) (hk : k ≤ ms.
   simp [rawToCentral, List.getD, this]
   congr 1; omega
 
-/-
-  Full statement of the property (does NOT hold for the code at k = 1):
-    ∀ d, d.mass = 1 → ∀ N k, 1 ≤ k → k ≤ N → (rawToCentral (d.moments N)).getD (k-1) 0 = centralSpec d k
-  The code sets `centrals[1] = moments[1]`, so at k = 1 it returns the mean (`central_order_one`)
-  whereas the first central moment is 0 (`centralSpec_one`); see `central_counterexample`.
--/
-
-/-- **C11 central moments** (the part that holds): for every finitely supported law of total mass 1
-    and every order k ≥ 2, the k-th entry of `raw_moments_to_centrals(raw moments of the law)` is
-    `E (X − E X)^k`.  (Weights need not be non-negative.) -/
-theorem central_correct (d : Law) (hmass : d.mass = 1) (N k : ℕ) (hk : 2 ≤ k) (hkN : k ≤ N) :
-    (rawToCentral (d.moments N)).getD (k - 1) 0 = centralSpec d k := by
-  rw [rawToCentral_getD _ k (by omega) (by rw [moments_length]; exact hkN)]
-  unfold centralOf centralSpec
-  have h1 : k ≠ 1 := by omega
-  simp only [h1, if_false]
-  rw [sumTo_eq, central_binomial]
-  refine Finset.sum_congr rfl fun j hj => ?_
-  have hj' : j ≤ N := by have := Finset.mem_range.mp hj; omega
-  unfold centralTerm
-  rw [comb_eq, mAt_moments d hmass N j hj', mAt_moments d hmass N 1 (by omega)]
-  rfl
-
-/-- alias under the naming convention of the guide (`…_partial`: extra hypothesis `2 ≤ k`) -/
-theorem central_correct_partial (d : Law) (hmass : d.mass = 1) (N k : ℕ) (hk : 2 ≤ k) (hkN : k ≤ N) :
-    (rawToCentral (d.moments N)).getD (k - 1) 0 = centralSpec d k :=
-  central_correct d hmass N k hk hkN
-
--- non-vacuity: a law of mass 1 with k = 3 ≤ N = 4, both sides equal 3/2
-example : let d : Law := [(1/2, 0), (1/4, 1), (1/4, 3)]
-    d.mass = 1 ∧ (rawToCentral (d.moments 4)).getD (3 - 1) 0 = 3/2 ∧ centralSpec d 3 = 3/2 := by
-  decide +kernel
-
-/-- what the code returns at order 1: the mean -/
-theorem central_order_one (d : Law) (N : ℕ) (hN : 1 ≤ N) :
-    (rawToCentral (d.moments N)).getD 0 0 = d.mean := by
-  have := rawToCentral_getD (d.moments N) 1 le_rfl (by rw [moments_length]; exact hN)
-  simp only [Nat.sub_self] at this
-  rw [this]
-  simp only [centralOf, if_true]
-  exact mAt_moments_pos d N 1 le_rfl hN
-
 /-- the first central moment of a law is 0 -/
 theorem centralSpec_one (d : Law) (hmass : d.mass = 1) : centralSpec d 1 = 0 := by
   unfold centralSpec
   rw [central_binomial]
   simp [Finset.sum_range_succ, moment_zero, hmass, Law.mean]
 
-/-- hence the code is wrong at k = 1 exactly for the laws with non-zero mean -/
-theorem central_order_one_wrong_iff (d : Law) (hmass : d.mass = 1) (N : ℕ) (hN : 1 ≤ N) :
-    (rawToCentral (d.moments N)).getD 0 0 = centralSpec d 1 ↔ d.mean = 0 := by
-  rw [central_order_one d N hN, centralSpec_one d hmass]
+/-- **C11 central moments** (full statement): for every finitely supported law of total mass 1 and
+    every order 1 ≤ k ≤ N, the k-th entry of `raw_moments_to_centrals(raw moments of the law)` is
+    `E (X − E X)^k`.  (Weights need not be non-negative.)  Order 1 is the special case `centrals[1] = 0`
+    of the code (repaired in /repo commit d65f6a5; before, the code returned the mean — finding F8, see
+    `central_old_code_counterexample`), orders ≥ 2 are the binomial theorem. -/
+theorem central_correct (d : Law) (hmass : d.mass = 1) (N k : ℕ) (hk : 1 ≤ k) (hkN : k ≤ N) :
+    (rawToCentral (d.moments N)).getD (k - 1) 0 = centralSpec d k := by
+  rw [rawToCentral_getD _ k hk (by rw [moments_length]; exact hkN)]
+  by_cases h1 : k = 1
+  · subst h1
+    rw [centralSpec_one d hmass]
+    simp [centralOf]
+  · unfold centralOf centralSpec
+    simp only [h1, if_false]
+    rw [sumTo_eq, central_binomial]
+    refine Finset.sum_congr rfl fun j hj => ?_
+    have hj' : j ≤ N := by have := Finset.mem_range.mp hj; omega
+    unfold centralTerm
+    rw [comb_eq, mAt_moments d hmass N j hj', mAt_moments d hmass N 1 (by omega)]
+    rfl
 
-/-- **counterexample** to the full statement (replayed on the real code: `c1(x)` for
-    `x = 0 {1/2} 2`): a fair coin on {0, 2}; the code's first "central moment" is 1, the true one is 0 -/
-theorem central_counterexample :
+-- non-vacuity: a law of mass 1 (mean 1 ≠ 0) with N = 4: order 1 gives 0 = 0, order 3 gives 3/2 = 3/2
+example : let d : Law := [(1/2, 0), (1/4, 1), (1/4, 3)]
+    d.mass = 1 ∧ d.mean = 1 ∧
+      (rawToCentral (d.moments 4)).getD (1 - 1) 0 = 0 ∧ centralSpec d 1 = 0 ∧
+      (rawToCentral (d.moments 4)).getD (3 - 1) 0 = 3/2 ∧ centralSpec d 3 = 3/2 := by
+  decide +kernel
+
+/-- Regression witness for the repaired finding F8: the *old* code (`centrals = {1: moments[1]}`)
+    returned the mean at order 1, which differs from the first central moment for every law with
+    non-zero mean — e.g. a fair coin on {0, 2} (old value 1, exact value 0). -/
+theorem central_old_code_counterexample :
     let d : Law := [(1/2, 0), (1/2, 2)]
-    d.mass = 1 ∧ (∀ pv ∈ d, 0 ≤ pv.1) ∧
-      (rawToCentral (d.moments 1)).getD 0 0 = 1 ∧ centralSpec d 1 = 0 := by
+    d.mass = 1 ∧ (∀ pv ∈ d, 0 ≤ pv.1) ∧ mAt (d.moments 1) 1 = 1 ∧ centralSpec d 1 = 0
+      ∧ (rawToCentral (d.moments 1)).getD 0 0 = 0 := by
   decide +kernel
 
 /-! ### cumulants -/
